@@ -124,8 +124,15 @@ func (g *gen) Ints() string {
 	return e
 }
 
-func (g *gen) Float() string {
+func (g *gen) pureFloat() string {
 	return g.pick("f", "f + 1", "float64(a)", "2.5", "f * 0.5")
+}
+
+func (g *gen) Float() string {
+	if g.se() {
+		return fmt.Sprintf("trf(%d, %s)", g.id(), g.pureFloat())
+	}
+	return g.pureFloat()
 }
 
 // note appends an observation of e to the function's result.
@@ -487,6 +494,7 @@ func b2i(b bool) int {
 
 func tr(id, v int) int             { traceLog = append(traceLog, id, v); return v }
 func trb(id int, v bool) bool      { traceLog = append(traceLog, id, b2i(v)); return v }
+func trf(id int, v float64) float64 { traceLog = append(traceLog, id, int(v)); return v }
 func trs(id int, v string) string  { traceLog = append(traceLog, id, len(v)); return v }
 func trbs(id int, v []byte) []byte { traceLog = append(traceLog, id, len(v)); return v }
 func trxs(id int, v []int) []int   { traceLog = append(traceLog, id, len(v)); return v }
